@@ -579,10 +579,12 @@ def classify_cc(d: dict, cfg: dict, mode: dict, names: dict, cache: dict, outdir
         # allocator_is_default_constructible: false -- composite types get no default constructor, and the container of the
         # flavour has none either; generated code that value-initialises such a member cannot compile.  Decided from the
         # generated code alone (the stand-in only has to lack a default constructor, which is what the option states).
-        nodef = re.search(r"no matching function for call to '[\w:<>, ]+::(\w+)\(\)'", msg)
+        nodef = re.search(r"no matching function for call to '[\w:<>, ]+::(\w+)\(\)'|use of deleted function 'std::array<[^']*>::array\(\)'", msg)
         if nodef and (re.search(r"\bnew\s*\(", line) or "do_emplace" in line or re.search(r"\bset_\w+\(\)", line)):
-            return {"cause": "allocator-not-default-constructible", "detail": "union-option-default-constructed-by-deserialize", "scope": ("std",)}
-        if re.search(r"could not convert '<brace-enclosed initializer list>\(\)'|no matching function for call to '[\w:<>, ]+::(\w+)\(\)'", msg) and re.search(r"^\s*\w+\{\},?\s*$", line):
+            # the union's emplace<I>() without arguments: from deserialize() (obj.set_x()) and from the union's own default
+            # initialisation of its first option
+            return {"cause": "allocator-not-default-constructible", "detail": "union-option-default-constructed", "scope": ("std",)}
+        if (nodef or "could not convert '<brace-enclosed initializer list>()'" in msg) and re.search(r"^\s*\w+\{\},?\s*$", line):
             return {"cause": "allocator-not-default-constructible", "detail": "fixed-array-of-composites-value-initialised", "scope": ("std",)}
     if target == "cpp" and "no matching function for call to 'operator new(" in msg:
         return {"cause": "missing-include", "detail": "<new>", "scope": ("omit",), "neutralise": [("-include", "new")]}
